@@ -159,7 +159,9 @@ def generate(run_seed, tier):
             "defaults": rng.random() < 0.3, "dim": rng.randint(1, 3)}
     if not case["defaults"] and model != "OneDimSpatial":
         # user-supplied distance functions, one of them asymmetric: the documented argument order is distance(voter, candidate)
-        case["distance"] = rng.choice([None, "l1", "directional", "directional"])
+        case["distance"] = rng.choice([None, None, "l1", "directional", "directional"])
+        # map-like coordinates: far from the origin relative to their spread (any shortcut through |v|^2 - 2v.c + |c|^2 cancels)
+        case["offset"] = rng.choice([0.0, 1e3, 1e6, 1e8, 1e8])
     if model == "ClusteredSpatial":
         per = [rng.randint(0, 30) for _ in cands]
         if sum(per) == 0:
@@ -601,7 +603,9 @@ def execute_spatial(case, trace):
         for v in vpos:
             dist = GP.DISTANCES.get(case.get("distance")) or (lambda a, b: float(np.linalg.norm(a - b)))
             d = {c: dist(v, p) for c, p in cpos.items()}
-            if len(set(d.values())) < len(d):
+            ds = sorted(d.values())
+            if any(b - a <= 1e-9 * max(1.0, abs(b)) for a, b in zip(ds, ds[1:])):
+                # two candidates (nearly) equidistant: either order is a legal reading of "increasing distance"
                 skipped += 1
                 continue
             r = tuple(sorted(d, key=d.__getitem__))
@@ -611,7 +615,7 @@ def execute_spatial(case, trace):
             r = tuple(next(iter(s)) for s in b.ranking)
             got[r] = got.get(r, 0) + int(b.weight)
         probes["voters_checked"] = len(vpos) - skipped
-        if skipped == 0 and got != exp:
+        if (got != exp) if skipped == 0 else any(got.get(r, 0) < k for r, k in exp.items()):
             diff = [r for r in set(got) | set(exp) if got.get(r, 0) != exp.get(r, 0)][:3]
             violations.append({"clause": "distance-order", "message": f"{model}: ballots are not the candidates sorted by increasing distance from the sampled voter positions; e.g. {[(r, got.get(r, 0), exp.get(r, 0)) for r in diff]} (ranking, profile weight, expected)",
                                "sig": {"kind": "S", "model": model, "clause": "distance-order"}})
